@@ -20,6 +20,18 @@ ASSUMPTIONS = [
 
 PROPS = {
 
+    "C18": {"rule": "700 generated items per run (struct/enum, unit/braced, 0-2 lifetimes, 0-3 type parameters with inline bounds / defaults / where-clauses, const parameters, extra attributes) "
+            "with hash-input literals of 0..200 chars over an alphabet with quotes, backslashes, tab/newline, braces, non-ASCII (2-4 byte UTF-8) written as escaped or raw literals, lengths 55/56/63/64/119/120 to cross SHA-256 block boundaries, "
+            "leading/trailing whitespace; each goes through the real SplDiscriminateBuilder at run time (bytes + emitted impl header parsed back with syn), ArrayDiscriminator::new_with_hash_input and sha2; "
+            "8 compiled derives (incl. inline-bound/const/defaulted generics); u64/array/slice conversions on boundary and random values and all slice lengths 0..20",
+            "partial": ["macro sha2 = run-time solana-sha256-hasher = SHA-256: decided by the correspondence with the Gallina SHA-256 (third independent implementation), not by a theorem"],
+            "masks": [], "assumptions": ["token strings of bounds/defaults are compared after whitespace normalisation"]},
+    "C19": {"rule": "500 generated enums per run (names 1..30 chars, 1..12 unit variants, explicit discriminants, messages with quotes/escapes/Unicode written as escaped or raw literals, 1/8 missing messages, doc comments and extra attributes, "
+            "renamed error crate in 1/4, hashed start in 1/2, a wrong declared start in 1/5 of those) through the real spl_program_error / to_str generators included by #[path]; names needing a non-zero nonce found by scanning 3M names; "
+            "5 compiled enums through the real macros (hashed, plain with explicit discriminants, renamed crate, Unicode/raw messages, the two derives); TlvError / ListViewError / AccountResolutionError scanned over start-2..start+64 via TryFrom<u32> and FromPrimitive",
+            "partial": ["Display (thiserror), TryFromPrimitive/FromPrimitive (num_enum, num-derive) and the wrong-start diagnostic are third-party / generator output: decided by execution"],
+            "masks": [], "assumptions": ["messages are brace-free (no format arguments), as the property states"]},
+
     "C16": {"rule": 'accounts and mints with random/boundary field values, every option tag and account state, packed by spl-token-interface; extended for Token-2022 with an account-type byte (right, wrong, invalid) plus TLV-looking data or garbage of 0..400 bytes, zero padding, the 355-byte multisig length; random lengths around 82/165/166/355; sparse random strings; the bytes at 45/108/165 swept over {0,1,2,3,255}; option tags and state corrupted in 1/8; each string goes through generic Account/Mint::unpack under three program ids, the trait getters, Pack::unpack of both reference crates and StateWithExtensions::unpack; non-trivial = some parser accepted', "partial": ["the reference model (Token/Model.v) equals the crates: validated on every run in both directions, not proved"], "masks": [],
             "assumptions": ["program ids and packed lengths are read from the crates and compared with the constants the model uses"]},
     "C17": {"rule": 'accounts and mints with random/boundary field values, every option tag and account state, packed by spl-token-interface; extended for Token-2022 with an account-type byte (right, wrong, invalid) plus TLV-looking data or garbage of 0..400 bytes, zero padding, the 355-byte multisig length; random lengths around 82/165/166/355; sparse random strings; the bytes at 45/108/165 swept over {0,1,2,3,255}; option tags and state corrupted in 1/8; each string goes through generic Account/Mint::unpack under three program ids, the trait getters, Pack::unpack of both reference crates and StateWithExtensions::unpack; non-trivial = some parser accepted' + "; C17 additionally sweeps every length 0..400 with the bytes at 45/108/165 over {0,1,2,3,255} (thorough: all 256 values at 45)", "partial": [], "masks": [], "assumptions": []},
